@@ -181,7 +181,18 @@ fn fits_checks<T: FitsSt>(rep: &mut Report, orc: &mut Oracle, m: &StMoc, w: u8, 
   }
 }
 
-fn text_checks(rep: &mut Report, orc: &mut Oracle, rng: &mut Rng, m: &StMoc, case: &str) {
+fn text_checks(rep: &mut Report, orc: &mut Oracle, rng: &mut Rng, m: &StMoc, case: &str, labels: Option<(u8, u8)>) {
+  // labels = depths the ELEMENTS are labelled with (<= the depths of the ST-MOC): an element may be shallower
+  // than the MOC it belongs to; by default the elements carry the depths of the ST-MOC
+  let to_moc2 = |m: &StMoc| -> moc::moc2d::range::RangeMOC2<u64, Time<u64>, u64, Hpx<u64>> {
+    match labels {
+      None => crate::st::to_moc2(m),
+      Some((lt, ls)) => {
+        let elems = m.elems.iter().map(|(t, sp)| RangeMOC2Elem::new(rm::<Time<u64>>(lt, t), rm::<Hpx<u64>>(ls, sp))).collect();
+        RangeMOC2::new(m.dt, m.ds, elems)
+      }
+    }
+  };
   for fold in [None, Some(0usize), Some(20), Some(80)] {
     for use_len in [false, true] {
       rep.evaluations += 1;
@@ -211,7 +222,8 @@ fn text_checks(rep: &mut Report, orc: &mut Oracle, rng: &mut Rng, m: &StMoc, cas
           let req = format!("ASC2W t 64 s 64 116 115 {} {} {} {} {}", m.dt, m.ds, fold.map(|x| x.to_string()).unwrap_or("-".to_string()), use_len as u8, m.wire());
           let model = orc.ask(&req);
           let model_hex = model.split_whitespace().nth(1).unwrap_or("").to_string();
-          if !model.starts_with("OK") || asciix::hex(s1.as_bytes()) != model_hex {
+          // (the model writes every element at the depths of the ST-MOC: not comparable when the elements are labelled shallower)
+          if labels.is_none() && (!model.starts_with("OK") || asciix::hex(s1.as_bytes()) != model_hex) {
             rep.corr_break("moc2d_to_ascii_ivoa writes other characters than the character-level model", &format!("{} # {}", req, shown), &format!("{:?}", s1), &model, "src/deser/ascii.rs moc2d_to_ascii_ivoa == Model/AsciiCodec.v st_to_ascii (C11_ascii_st_roundtrip)");
           }
           asciix::compare_reader_2d(rep, orc, &s1, "written");
@@ -246,7 +258,7 @@ fn text_checks(rep: &mut Report, orc: &mut Oracle, rng: &mut Rng, m: &StMoc, cas
       let req = format!("JSON2W {} {} {} {}", m.dt, m.ds, fold.map(|x| x.to_string()).unwrap_or("-".to_string()), m.wire());
       let model = orc.ask(&req);
       let model_hex = model.split_whitespace().nth(1).unwrap_or("").to_string();
-      if !model.starts_with("OK") || asciix::hex(s1.as_bytes()) != model_hex {
+      if labels.is_none() && (!model.starts_with("OK") || asciix::hex(s1.as_bytes()) != model_hex) {
         rep.corr_break("cellmoc2d_to_json_aladin writes other characters than the character-level model", &format!("{} # {}", req, shown), &format!("{:?}", s1), &model.chars().take(300).collect::<String>(), "src/deser/json.rs cellmoc2d_to_json_aladin == Model/JsonCodec.v st_to_json");
       }
       asciix::compare_reader_json_2d(rep, orc, s1, "written");
@@ -296,7 +308,7 @@ pub fn run(ctx: &Ctx) -> Report {
     let mut m = if i == 0 { StMoc { dt, ds, elems: vec![] } } else { gen_stmoc(&mut rng, dt, ds, nslots, base, 4, 3) };
     let case0 = format!("STSER {}", m.show());
     fits_checks::<u64>(&mut rep, &mut orc, &m, 64, &case0);
-    text_checks(&mut rep, &mut orc, &mut rng, &m, &case0);
+    text_checks(&mut rep, &mut orc, &mut rng, &m, &case0, None);
     if dt <= 29 && ds <= 13 {
       fits_checks::<u32>(&mut rep, &mut orc, &narrow(&m, 32), 32, &case0);
     }
@@ -309,7 +321,9 @@ pub fn run(ctx: &Ctx) -> Report {
       m.ds = rng.range(ds as u64, 29) as u8;
       let case1 = format!("STSER {}", m.show());
       fits_checks::<u64>(&mut rep, &mut orc, &m, 64, &case1);
-      text_checks(&mut rep, &mut orc, &mut rng, &m, &case1);
+      text_checks(&mut rep, &mut orc, &mut rng, &m, &case1, None);
+      // ... and elements labelled with their own (shallower) depths inside the deeper ST-MOC
+      text_checks(&mut rep, &mut orc, &mut rng, &m, &format!("{} # elements labelled dt={} ds={}", case1, dt, ds), Some((dt, ds)));
     }
     if !m.elems.is_empty() {
       rep.nontrivial(&case0);
